@@ -148,9 +148,18 @@ func H_frames() {
 	}
 	save, lag, short := rt.Param("save"), rt.Param("lag"), rt.Param("short")
 
+	comp := hlib.CodecParam()
 	var buf bytes.Buffer
 	wc := wire.NewWriteContext(&buf)
 	hlib.Must(wc.WriteMagic(pwr.PatchMagic), "magic")
+	rawWc := wc
+	if comp.Algorithm != pwr.CompressionAlgorithm_NONE {
+		// the messages go through CompressWire / DecompressWire (model codec): the reader's checkpoints then carry the
+		// decompressing source's own checkpoint
+		var err error
+		wc, err = pwr.CompressWire(rawWc, comp)
+		hlib.Must(err, "CompressWire")
+	}
 	for _, m := range msgs {
 		if m.empty {
 			hlib.Must(wc.WriteMessage(&pwr.SyncOp{}), "write all-default message")
@@ -158,13 +167,24 @@ func H_frames() {
 		}
 		hlib.Must(wc.WriteMessage(&pwr.SyncOp{Type: pwr.SyncOp_DATA, FileIndex: m.idx, Data: m.data}), "write message")
 	}
+	if wc != rawWc {
+		hlib.Must(wc.Close(), "close compressed wire")
+	}
 	stream := buf.Bytes()
 
-	src := newSource(stream, lag, short)
-	_, err := src.Resume(nil)
-	hlib.Must(err, "resume")
-	rc := wire.NewReadContext(src)
-	rt.Assert(rc.ExpectMagic(pwr.PatchMagic) == nil, "magic read back")
+	open := func(lag, short int) *wire.ReadContext {
+		src := newSource(stream, lag, short)
+		_, err := src.Resume(nil)
+		hlib.Must(err, "resume")
+		rc := wire.NewReadContext(src)
+		rt.Assert(rc.ExpectMagic(pwr.PatchMagic) == nil, "magic read back")
+		if comp.Algorithm != pwr.CompressionAlgorithm_NONE {
+			rc, err = pwr.DecompressWire(rc, comp)
+			hlib.Must(err, "DecompressWire")
+		}
+		return rc
+	}
+	rc := open(lag, short)
 	var hold, hold2 pwr.SyncOp
 	for i, m := range msgs {
 		if save&(1<<i) != 0 {
@@ -180,8 +200,12 @@ func H_frames() {
 			// serialize, then resume a brand-new reader over the same bytes
 			c2 := &wire.MessageReaderCheckpoint{}
 			rt.Assert(rt.CloneViaGob(c2, c) == nil, "checkpoint survives gob")
-			src2 := newSource(stream, 0, short)
-			rc2 := wire.NewReadContext(src2)
+			var rc2 *wire.ReadContext
+			if comp.Algorithm != pwr.CompressionAlgorithm_NONE {
+				rc2 = open(0, short) // the same layering as a patcher that is about to resume
+			} else {
+				rc2 = wire.NewReadContext(newSource(stream, 0, short))
+			}
 			rt.Assert(rc2.Resume(c2) == nil, "resume from checkpoint succeeds")
 			for j := i + 1; j < len(msgs); j++ {
 				op2, err := readOne(rc2, &hold2)
@@ -195,7 +219,7 @@ func H_frames() {
 			rt.Assert(hlib.Cause(err) == io.EOF, "resumed reader ends with EOF")
 		}
 	}
-	_, err = readOne(rc, &hold)
+	_, err := readOne(rc, &hold)
 	rt.Assert(hlib.Cause(err) == io.EOF, "end of stream after the last message")
 	rt.Reach("end")
 }
